@@ -382,3 +382,21 @@ def main(prop, run):
         ctx.cleanup()
         raise
     sys.exit(rc)
+
+
+# ---------------------------------------------------------------- meson CLI helpers
+def meson_cli(args, cwd=None, env=None, timeout=300, hashseed='0'):
+    """Run /repo's meson.py with the given arguments.  Returns CompletedProcess (text)."""
+    e = impl_env(env)
+    e['PYTHONHASHSEED'] = hashseed
+    e['NINJA'] = os.path.join(VERIF, 'tools', 'fakeninja')
+    e.setdefault('MESON_VERIF', '1')
+    return subprocess.run([PY, os.path.join(REPO, 'meson.py')] + list(args), cwd=cwd, env=e,
+                          capture_output=True, text=True, timeout=timeout)
+
+
+def pmap(fn, items, workers=None):
+    """Thread pool map for subprocess-bound work (CLI runs)."""
+    from concurrent.futures import ThreadPoolExecutor
+    with ThreadPoolExecutor(max_workers=workers or NPROC) as ex:
+        return list(ex.map(fn, items))
